@@ -15,7 +15,7 @@ at the reported offset finds the item's id; the value equals the reference decod
 pub const ASSUMPTIONS: &[&str] = &[
     "statements about bytes after the first error are out of scope",
     "with unknown ids tolerated a 0x00 byte is read as 'id 0' (not an EBML id): tolerated as its own counted class",
-    "inputs that could make the iterator allocate > 64 MiB under the chosen size limit are read with a 1 MiB limit instead (counted)",
+    "inputs that could make the iterator allocate > 4 MiB under the chosen size limit are read with a 1 MiB limit instead (counted)",
 ];
 
 pub fn gen_read_cfg(t: &mut Tape, m: &MixedInput, small_caps: bool) -> ReadCfg {
